@@ -3,7 +3,7 @@
    `run g pf (init c) h` is the state after history h; g = true is the code WITH the first-wins guard in
    _set_final_result/_set_final_exception (the repaired driver), g = false the code without it. *)
 From Coq Require Import ZArith List Bool Lia.
-From Verif Require Import FutureState FutureOnce C14_proofs.
+From Verif Require Import FutureState FutureOnce C14_proofs FutureCbLock C14_lock_proofs.
 Import ListNotations.
 Local Open Scope Z_scope.
 
@@ -12,8 +12,8 @@ Local Open Scope Z_scope.
    registrations, pool changes and clock ticks, in any order and of any length:
    - every registered (callback, errback) pair was invoked at most once in total for the current page fetch -- so never
      twice and never both --, and result() reports exactly the value it was invoked with;
-   - once every request sent has been answered or has failed (and no retry is waiting in the executor), or the timeout
-     handler has run, the outcome exists and every registered pair has been invoked exactly once. *)
+   - once every request sent has been answered or has failed (no retry is waiting in the executor, no pool still owes the
+     report of its internal USE after a SET_KEYSPACE answer), or the timeout handler has run, the outcome exists and every registered pair has been invoked exactly once. *)
 Definition C14_statement (g pf : bool) : Prop :=
   forall (c : config) (h : list op),
     let s := run g pf (init c) h in
@@ -39,16 +39,14 @@ Theorem C14_check_sound : forall pf c h, c14_ok (run true pf (init c) h) = true.
 Proof. intros. apply c14_ok_iff, C14_guarded. Qed.
 Print Assumptions C14_check_sound.
 
-(* ---- without the guard the statement fails: three witnesses, each replayed on the real class by checks/C14.py *)
+(* ---- without the guard the statement fails: two witnesses, each replayed on the real class by checks/C14.py *)
 Definition w_cfg := mkConfig [1; 2; 3] (Some 1000) [100] [(1, POk); (2, POk); (3, POk)] 0.
 (* two speculative executions both answer: callbacks run twice *)
 Definition w_spec := [AddCb; Send; Tick 100; Fire 0; Resp 0 (RRows false); Resp 1 (RRows false)].
 (* the client timeout fires, then the first attempt answers: errback and callback both run *)
 Definition w_late := [AddCb; Send; Tick 100; Fire 0; Tick 900; Fire 1; Resp 0 (RRows false)].
-(* no speculative execution at all: RETRY on the same host leaves _req_id stale, the timeout cannot withdraw the retried
-   request, its late answer runs the callback after the errback *)
+(* a configuration without speculative executions *)
 Definition w_cfg1 := mkConfig [1; 2; 3] (Some 1000) [] [(1, POk); (2, POk); (3, POk)] 0.
-Definition w_retry := [AddCb; Send; Resp 0 (RRetry DRetry); Run 0; Tick 1000; Fire 0; Resp 1 (RRows false)].
 
 Theorem C14_without_guard_refuted : forall pf, ~ C14_statement false pf.
 Proof.
@@ -64,14 +62,34 @@ Proof. split; vm_compute; reflexivity. Qed.
 Example C14_witness_late : pairs (run false true (init w_cfg) w_late) = [mkPair [10] [1]]
                            /\ pairs (run true true (init w_cfg) w_late) = [mkPair [] [1]].
 Proof. split; vm_compute; reflexivity. Qed.
-Example C14_witness_retry : pairs (run false true (init w_cfg1) w_retry) = [mkPair [11] [2]]
-                            /\ result_call (run false true (init w_cfg1) w_retry) = Some (0, 11)
-                            /\ pairs (run true true (init w_cfg1) w_retry) = [mkPair [] [2]].
-Proof. repeat split; vm_compute; reflexivity. Qed.
-
 (* non-vacuity: a history with two attempts in flight and a registered pair reaches "everything answered",
    with the outcome delivered exactly once and reported by result() *)
 Example C14_nonvacuous :
   let s := run true true (init w_cfg) (w_spec ++ [Result]) in
   all_answered s = true /\ pairs s = [mkPair [10] []] /\ results s = [(0, 10)] /\ length (attempts s) = 2%nat.
 Proof. vm_compute. repeat split. Qed.
+
+(* USE statement: the SET_KEYSPACE answer starts Session._set_keyspace_for_all_pools; the outcome is delivered by the LAST pool
+   report, also when that report carries the error *)
+Example C14_use_statement :
+  let h := [AddCb; Send; Resp 0 RSetKs; KsReport 0 2 false; KsReport 0 3 false] in
+  all_answered (run true true (init w_cfg1) h) = false
+  /\ pairs (run true true (init w_cfg1) (h ++ [KsReport 0 1 true])) = [mkPair [] [4]]
+  /\ all_answered (run true true (init w_cfg1) (h ++ [KsReport 0 1 true])) = true
+  /\ pairs (run true true (init w_cfg1) (h ++ [KsReport 0 1 false])) = [mkPair [1] []].
+Proof. vm_compute. repeat split. Qed.
+
+(* ---- two threads inside the calls: the _callback_lock protocol (Model/FutureCbLock.v, one op = one lock region of
+   _set_final_result / add_callback; any number of completing threads, any interleaving, any length) *)
+Theorem C14_lock_protocol : forall h : list lop,
+  let s := lrun true h in
+  (lruns s <= 1)%nat                                                     (* the callback never runs twice *)
+  /\ (lfinal s = true -> lpc s = ADone -> lpend s = 0%nat -> lruns s = 1%nat) (* registered, completed, all threads done: exactly once *)
+  /\ (lfinal s = false -> lruns s = 0%nat).                               (* never before the outcome exists *)
+Proof. exact lock_protocol_once. Qed.
+Print Assumptions C14_lock_protocol.
+
+(* deciding run_now after the lock was released: the completion may take its snapshot and run it in between *)
+Theorem C14_check_outside_lock_refuted : exists h, lruns (lrun false h) = 2%nat.
+Proof. exists [AddLocked; Claim; RunSnap; AddFinish]. reflexivity. Qed.
+Print Assumptions C14_check_outside_lock_refuted.
